@@ -1568,6 +1568,36 @@ def g_canon(state):
 
 # ---------------------------------------------------------------------------------------------
 
+# ---------------------------------------------------------------------------------------------
+# make_window on its own: the window a caller receives belongs to the caller (he may clip it, multiply an aperture into it);
+# the PSD of a later map of the same shape must use the window it names, not what became of an earlier returned array
+
+def run_window(case, seed, R):
+    n0, n1, dx, wname = case['n0'], case['n1'], case['dx'], case['window']
+    h = dense((n0, n1), seed, salt=77, complex_=False)
+    arg, cands = window_choice(wname, h, dx)
+    w = R.call(ig.make_window, h.copy(), dx, arg, sig='make_window:exception')       # plain function: the hygiene layer scribbles on the result and repeats the call
+    if w is FAILED:
+        return
+    ok = False
+    for name, ref, wabs in cands:
+        if isinstance(w, np.ndarray) and w.shape == ref.shape and np.all(np.abs(w - ref) <= 64 * EPS * wabs):
+            ok = True
+    R.expect(ok, f'make_window:value:{wname}', f'make_window({(n0, n1)}, dx={dx}, {arg!r}) is none of the candidate windows {[c[0] for c in cands]}')
+    if not ok:
+        return
+    # the caller edits the window he was given, in place, then asks for the PSD of another map of the same shape and spacing
+    keep = w.copy()
+    w[...] = np.clip(w, 0.25, 0.5) * 3.0
+    h2 = dense((n0, n1), seed, salt=78, complex_=False)
+    out = R.call(ig.psd, h2.copy(), dx, arg, sig='psd:exception', hygiene=False)
+    judge_psd(R, out, h2, dx, cands, wname, f'psd of a {(n0, n1)} map after a window returned earlier by make_window was edited in place', prefix='psd:after-window-edit')
+    w2 = R.call(ig.make_window, h.copy(), dx, arg, sig='make_window:exception', hygiene=False)
+    R.expect_equal(w2, keep, f'make_window:after-window-edit:{wname}', 'make_window returns the edited values of an array it handed out earlier')
+    R.nontrivial(n0 * n1 > 1)
+    R.outcome(f'window:{wname}')
+
+
 def plan(tier, seed):
     quick = tier == 'quick'
     B = 8 if quick else 11
@@ -1609,7 +1639,12 @@ def plan(tier, seed):
     g_inits = [{'n0': 12, 'n1': 13, 'border': [1, 3, 2, 0]}, {'n0': 12, 'n1': 12, 'border': [2, 0, 1, 3]}] + ([] if quick else [{'n0': 11, 'n1': 14, 'border': [2, 2, 3, 3]}, {'n0': 30, 'n1': 33, 'border': [0, 3, 2, 1]}])
     g_depth = 4
     rs = lambda: reset_executors(64)   # noqa
+    win_cases = [{'n0': a, 'n1': b, 'dx': dx, 'window': wn} for (a, b) in ((3, 3), (4, 4), (5, 4), (4, 7), (8, 8), (9, 6)) for dx in (1.0, 0.25) for wn in ('auto', 'hann', 'welch')]
     return [
+        ScopeUnit('make_window', win_cases, run_window,
+                  'make_window on its own for shapes {3x3, 4x4, 5x4, 4x7, 8x8, 9x6} x dx {1, 0.25} x {automatic, hann, welch}: value against the reference windows (through the call-hygiene layer: the '
+                  'returned array is written into and the call repeated), then the returned window is edited in place and (a) the PSD of another map of the same shape and spacing must still use the named window, '
+                  '(b) make_window must return the original values again', reset=rs),
         ScopeUnit('psd', psd_cases, run_psd,
                   f'every shape in [3..{B}]^2 (non-square, odd/even) x dx in {list(dxs)} x window in {{user array of ones, user array (asymmetric ramp), '
                   "'hann', 'welch', None}}; height maps: for shapes with <= 12 samples the complete quadratic-form basis (every delta_i and every "
